@@ -176,10 +176,10 @@ Proof.
       * (* known size: the children are held back, the header is inserted in front of them at the End *)
         pose proof (Hsz sl eq_refl) as Hf. assert (Hsl : (1 <= sl <= 8)%nat) by (destruct Hf; assumption).
         assert (Hb : buffer_tag sp (TStart id) (wopt d sl) st = (start_tag st id (wsl d sl), WOk)).
-        { rewrite buffer_tag_eq. cbn [tag_id is_master_tag negb]. rewrite Hty.
+        { rewrite buffer_tag_eq; raw_simpl. cbn [tag_id is_master_tag negb]. rewrite Hty.
           assert (Hu : o_unknown (wopt d sl) = false) by (destruct d; reflexivity). rewrite Hu. cbn [andb is_master_ty].
-          unfold should_validate. cbn [tag_id is_end negb]. rewrite Hty, Hval. cbn [negb andb].
-          unfold buffer_act. rewrite Hu. cbn [tag_id]. rewrite Hty, (size_len_of_wopt d sl Hsl). reflexivity. }
+          unfold should_validate; raw_simpl. cbn [tag_id is_end negb]. rewrite Hty, Hval. cbn [negb andb].
+          unfold buffer_act; raw_simpl. rewrite Hu. cbn [tag_id]. rewrite Hty, (size_len_of_wopt d sl Hsl). reflexivity. }
         cbn [node_opt].
         destruct (write_step sp st _ _ _ Hb Hs) as [st1 [Hstep1 [Ho1 [Hsc1 [Him1 [Hk1 _]]]]]].
         cbn [start_tag set_open w_open w_buf] in Ho1, Him1, Hk1.
@@ -207,9 +207,9 @@ Proof.
         split; [intros Hkn; destruct (Hk3 Hkn) as [Hd3 _]; rewrite Hd3, Hd2, Hd1; reflexivity|exact Hu3].
       * (* unknown size: the header goes out at once *)
         assert (Hb : buffer_tag sp (TStart id) opts_unknown st = (start_unknown_size_tag st id, WOk)).
-        { rewrite buffer_tag_eq. cbn [tag_id is_master_tag negb opts_unknown o_unknown]. rewrite Hty. cbn [andb is_master_ty negb].
-          unfold should_validate. cbn [tag_id is_end negb]. rewrite Hty, Hval. cbn [negb andb].
-          unfold buffer_act. cbn [o_unknown opts_unknown]. reflexivity. }
+        { rewrite buffer_tag_eq; raw_simpl. cbn [tag_id is_master_tag negb opts_unknown o_unknown]. rewrite Hty. cbn [andb is_master_ty negb].
+          unfold should_validate; raw_simpl. cbn [tag_id is_end negb]. rewrite Hty, Hval. cbn [negb andb].
+          unfold buffer_act; raw_simpl. cbn [o_unknown opts_unknown]. reflexivity. }
         cbn [node_opt].
         destruct (write_step sp st _ _ _ Hb Hs) as [st1 [Hstep1 [Ho1 [Hsc1 [Him1 [Hk1 Hu1]]]]]].
         cbn [start_unknown_size_tag set_open set_buf w_open w_buf] in Ho1, Him1, Hk1, Hu1.
